@@ -426,4 +426,51 @@ inductive DEffect where
   | other (text : String)
   deriving DecidableEq, Repr, Inhabited
 
+/-! ### Cloning as effect sequences -/
+
+inductive CEffect where
+  | sumLengths              -- total length of the source's strings (default capacity when that is 0)
+  | arenaSizedToContent     -- `Arena::new(total, max(source limit, total))`
+  | presizeExact            -- vector / table created with the source's count
+  | cloneHasher             -- `self.hasher.clone()`
+  | clearTarget             -- `self.clear()` (clone_from: the target is emptied first)
+  | takeHasher              -- `self.hasher = source.hasher.clone()`
+  | reserve                 -- `try_reserve` on the target's vector / table
+  | copyAll                 -- the call of `clone_strings_into`
+  | propagate               -- `?` on a fallible step
+  | loopBegin | loopEnd
+  | store | stringsPush | hashOne | probe
+  | keyCheck (arg : KArg)
+  | reject
+  | tableInsert
+  | other (text : String)
+  deriving DecidableEq, Repr, Inhabited
+
+/-- One method of a view: how it takes `self` and which fields it touches. -/
+structure ViewMethod where
+  owner : Wrapper
+  trait_ : String
+  name : String
+  recv : Recv
+  fields : List FieldName
+  unknownField : Bool          -- touches a field of `self` the extractor does not know
+  deriving Repr, Inhabited
+
+/-! ### Conditional compilation -/
+
+inductive GateKind where
+  | imports        -- `use` / `extern crate` items only
+  | serdeImpl      -- a whole `Serialize` / `Deserialize` impl behind `feature = "serialize"`
+  | optionalDep    -- impls for optional dependencies (deepsize, abomonation)
+  | moduleDecl     -- `mod x;` of a feature-only module
+  | emptyImpl      -- an impl without items (`impl std::error::Error for LassoError {}`)
+  | other          -- anything else: code that differs between feature configurations
+  deriving DecidableEq, Repr, Inhabited
+
+structure CfgGate where
+  file : String
+  kind : GateKind
+  text : String
+  deriving Repr, Inhabited
+
 end Lasso.Source
